@@ -29,6 +29,7 @@ def plan(tier, seed):
     nr = 6 if tier == 'quick' else 12
     for i in range(nr):
         shards.append({'name': 'random-%d' % i, 'fn': 'shard_random', 'args': {'part': i, 'parts': nr}})
+    shards.append({'name': 'random-interpreted', 'fn': 'shard_random', 'args': {'part': 1, 'parts': nr}, 'env': {'NUMBA_DISABLE_JIT': '1'}})     # kernels run by the interpreter
     for i in range(2 if tier == 'quick' else 4):
         shards.append({'name': 'targeted-%d' % i, 'fn': 'shard_targeted', 'args': {'part': i}})
     for i in range(2 if tier == 'quick' else 4):
